@@ -225,6 +225,8 @@ func runSyncer(prop, tier string, r *rng) {
 			burstCase(prop, heads)
 		}
 		appendRaceCase(prop, 20, 30)
+		dupHeadCase(prop, 20, 30, 35)
+		dupHeadCase(prop, 20, 21, 40)
 	}
 	// fixed scenarios
 	syncerCase(prop, 10, 0, nil, []string{"gossip valid 11", "gossip valid 12", "gossip valid 20", "wait", "gossip valid 15", "gossip forged 25", "gossip valid 30", "wait"})
@@ -405,6 +407,64 @@ func appendRaceCase(prop string, storeTo, target int) {
 	cancelH2()
 	run.quiesce()
 	emit("%s kind=appendrace store=%d target=%d => start=ok parked=%s head1=%s mid=%d gossip=%s head2=%s %s", prop, storeTo, target, parked, hres, mid, gres, h2, run.observe())
+	_ = run.s.Stop(ctx)
+	c2, cancel3 := context.WithTimeout(ctx, time.Second)
+	_ = run.st.Stop(c2)
+	cancel3()
+}
+
+// dupHeadCase: the same head N is learned twice while its sync is running - once by gossip (which starts the sync) and
+// once as the answer of a Head() request that was in flight - then a later head leaving a gap arrives. The Syncer must end
+// at the newest head with a finished, error-free state.
+func dupHeadCase(prop string, storeTo, n1, n2 int) {
+	ctx := context.Background()
+	run := newSyncRun(storeTo)
+	netHead := storeTo
+	run.g.headFn = func(*vhdr.Header) (*vhdr.Header, error) { return run.chain[netHead-1], nil }
+	sctx, cancel := context.WithTimeout(ctx, 3*time.Second)
+	err := run.s.Start(sctx)
+	cancel()
+	if err != nil {
+		emit("%s kind=duphead store=%d n1=%d n2=%d => start=err", prop, storeTo, n1, n2)
+		return
+	}
+	run.quiesce()
+	run.s.VerifSetPolicy(100*time.Hour, time.Second, time.Millisecond) // never "recent": Head() asks the network
+	netHead = n1
+	run.g.headGate = make(chan struct{})
+	run.script = append(run.script, make([]string, int(run.nreq.Load()))...) // keep earlier requests as they were
+	run.script = append(run.script[:int(run.nreq.Load())], "hold")
+	hdone := make(chan string, 1)
+	go func() {
+		hctx, cancelH := context.WithTimeout(ctx, 10*time.Second)
+		defer cancelH()
+		if h, err := run.s.Head(hctx); err == nil && h != nil {
+			hdone <- utoa(h.H)
+		} else {
+			hdone <- "err"
+		}
+	}()
+	time.Sleep(20 * time.Millisecond) // the head request is in flight
+	g1 := run.gossip("valid", n1)     // starts the sync (its range request is held)
+	for k := 0; k < 200 && run.nreq.Load() == 0; k++ {
+		time.Sleep(time.Millisecond)
+	}
+	close(run.g.headGate) // Head() is answered with the same n1 while the sync is running
+	time.Sleep(20 * time.Millisecond)
+	close(run.holdCh)
+	hres := "hang"
+	select {
+	case hres = <-hdone:
+	case <-time.After(5 * time.Second):
+	}
+	run.quiesce()
+	g2 := run.gossip("valid", n2)
+	run.quiesce()
+	c, cancel2 := context.WithTimeout(ctx, time.Second)
+	werr := run.s.SyncWait(c)
+	cancel2()
+	emit("%s kind=duphead store=%d n1=%d n2=%d => start=ok gossip1=%s head1=%s gossip2=%s %s syncwait=%s", prop, storeTo, n1, n2, g1, hres, g2, run.observe(),
+		map[bool]string{true: "ok", false: "timeout"}[werr == nil])
 	_ = run.s.Stop(ctx)
 	c2, cancel3 := context.WithTimeout(ctx, time.Second)
 	_ = run.st.Stop(c2)
